@@ -33,7 +33,7 @@ var lexFragments = []string{
 
 func genLexCmd(in *bufio.Scanner, out *bufio.Writer, args []string) error {
 	fs := flag.NewFlagSet("genlex", flag.ContinueOnError)
-	mode := fs.String("mode", "exhaustive", "exhaustive | random | corpus | big | boundary | idents | lengths | bodies")
+	mode := fs.String("mode", "exhaustive", "exhaustive | random | corpus | big | boundary | idents | lengths | bodies | many")
 	maxLen := fs.Int("len", 3, "exhaustive: maximum length")
 	n := fs.Int("n", 1000, "random: number of cases")
 	seed := fs.Uint64("seed", 1, "random seed")
@@ -186,6 +186,14 @@ func genLexCmd(in *bufio.Scanner, out *bufio.Writer, args []string) error {
 					}
 				}
 			}
+		}
+	case "many":
+		// token COUNTS beyond any plausible internal cap (2^16, 2^18): one-byte tokens
+		for _, c := range []struct {
+			unit string
+			n    int
+		}{{";", 70000}, {";", 270000}, {"1,", 140000}, {"( ", 270000}, {"a ", 270000}} {
+			fmt.Fprintln(out, hx([]byte(strings.Repeat(c.unit, c.n))))
 		}
 	case "big": // one large input per scanner: unterminated constructs and long runs (size given by -n)
 		size := *n
